@@ -4,9 +4,11 @@
    validators, is-dict, lists and uniform tuples with item-count predicates, n-tuples, string-keyed maps with size
    predicates, every record-shaped validator (RecordValidator, DictValidatorAny, Dataclass /
    NamedTuple / TypedDict validators) with string keys, optional keys and either unknown-key
-   policy, optionals and caches, nested to any depth. Unions, not-blank, user regexes, uniqueness
-   and repeated keywords are refuted below; named recursive schemas are tied by differential
-   execution only. *)
+   policy, optionals and caches, and unions whose variants accept pairwise different JSON kinds
+   (string / integer / float / boolean / null / array / object, read off the variants' shapes: for
+   those oneOf and first-match coincide), nested to any depth. Overlapping unions, not-blank,
+   user regexes, uniqueness and repeated keywords are refuted below; named recursive schemas are
+   tied by differential execution only. *)
 From Coq Require Import ZArith List Bool String.
 From KV Require Import Base.PyVal Base.Prims Model.Validator Model.Sem Model.Schema Model.SchemaSat
      Proofs.SatP Corr.UserLib.
@@ -75,6 +77,20 @@ Definition rec_sample :=
                                       None None true None)] None None true.
 Example C11_nonvacuous_records : frag no_text rec_sample = true /\ Nat.ltb (vheight rec_sample) 6 = true.
 Proof. split; vm_compute; reflexivity. Qed.
+
+(* a union of an integer, a string with predicates, a list of such unions' members and an object *)
+Definition union_sample :=
+  ListV (UnionV [Scalar KInt None [] [PMin (VInt 0) false] [];
+                 Scalar KStr None [] [PMaxLength 3] [];
+                 OptionalV (NoneV None) (ListV (Scalar KBool None [] [] []) [] [] None);
+                 DictAnyV [(VStr (lit "k"), UnionV [Scalar KFloat None [] [] []; Scalar KStr None [] [] []])] None None true])
+        [] [] None.
+Example C11_nonvacuous_unions :
+  frag no_text union_sample = true /\ Nat.ltb (vheight union_sample) 6 = true /\
+  verdicts never union_sample (VList [VInt 3; VStr (lit "ab"); VNone; VList [VBool true]; VDict [(VStr (lit "k"), VFloat (FFin false 3 (-1)))]]) = (Some true, true) /\
+  verdicts never union_sample (VList [VInt (-1)]) = (Some false, false) /\
+  verdicts never union_sample (VList [VDict [(VStr (lit "k"), VInt 1)]]) = (Some false, false).
+Proof. repeat split; vm_compute; reflexivity. Qed.
 
 Definition sample :=
   ListV (NTupleV [IsDictV; OptionalV (NoneV None)
